@@ -975,7 +975,8 @@ int parse_instruction_riscv(AsmContext *asm_context, char *instr)
       // FIXME: Need to re-evaluate this to figure out why it's here.
       if (modifiers.rm != -1 && table_riscv[n].type < OP_COMP_RD_NZUIMM)
       {
-        if (operands[operand_count - 1].type != OPERAND_RM ||
+        if (operand_count == 0 ||
+            operands[operand_count - 1].type != OPERAND_RM ||
             (table_riscv[n].type != OP_FP_FP_RM &&
              table_riscv[n].type != OP_R_FP_RM &&
              table_riscv[n].type != OP_FP_R_RM &&
